@@ -123,7 +123,7 @@ ASSUME ExportCfg
 Coarse == "deliver" \notin Calls
 View == IF Coarse
         THEN <<[i \in 1..Len(w.slots) |-> [w.slots[i] EXCEPT !.lastRecv = 0, !.lastSend = 0]],
-               [a \in DOMAIN w.pending |-> w.pending[a].tok], w.entries, w.consumed, w.maxc,
+               [a \in DOMAIN w.pending |-> w.pending[a].tok], [i \in 1..Len(w.entries) |-> <<w.entries[i].tok, w.entries[i].addr>>], w.consumed, w.maxc,
                [c \in DOMAIN w.cl |-> <<w.cl[c].state, w.cl[c].reason, w.cl[c].seq>>], obs.sess, obs.flags, ctl.steps>>
         ELSE <<w, obs, ctl>>
 
@@ -149,5 +149,7 @@ Toks_bad == [TV |-> Tok(10, 31, <<1>>, 30, "K", "P"), TF |-> Tok(40, 41, <<1>>, 
              TH |-> Tok(42, 43, <<2>>, 30, "K", "P"), TE |-> Tok(43, 44, <<1>>, 0, "K", "P")]
 Clis_bad == [v |-> [tok |-> "TV", addr |-> 1], f |-> [tok |-> "TF", addr |-> 2], q |-> [tok |-> "TQ", addr |-> 2], h |-> [tok |-> "TH", addr |-> 3],
              x |-> [tok |-> "TE", addr |-> 3]]
+\* the holder of T1 at two addresses and a second identity (D21: with a one-entry token table the binding of T1 is evicted)
+Clis_moved == [c1 |-> [tok |-> "T1", addr |-> 1], c1b |-> [tok |-> "T1", addr |-> 3], c2 |-> [tok |-> "T2", addr |-> 2]]
 P_HS == <<"C05", "C10", "C17", "C19", "C04", "C13">>
 =============================================================================
